@@ -93,7 +93,11 @@ func updateLiquidityRewards(context vm_context.AccountVmContext) ([]*nom.Account
 	result := make([]*nom.AccountBlock, 0)
 
 	for {
-		if err := checkAndPerformUpdateEpoch(context, lastEpoch); err == constants.ErrEpochUpdateTooRecent || len(result) >= constants.MaxEpochsPerUpdate {
+		// the cap is tested before the epoch cursor moves: an epoch which is not paid in this update stays pending
+		if len(result) >= constants.MaxEpochsPerUpdate {
+			return result, nil
+		}
+		if err := checkAndPerformUpdateEpoch(context, lastEpoch); err == constants.ErrEpochUpdateTooRecent {
 			liquidityLog.Debug("invalid update - rewards not due yet", "epoch", lastEpoch.LastEpoch+1)
 			return result, nil
 		} else if err != nil {
